@@ -39,8 +39,8 @@ def gen_cases(tier, seed):
                              film_kind=None if nt == 0 else "box", smooth=int(rng.choice([0, 1, 10, 100])),
                              gamma=float([10.0, 1e-3, 0.0, 1.0, 1e-4, 0.1, 1e-2][k % 7]))
         regime = "stable" if k % 5 != 4 else "above_bound"
-        o = dict(adaptive=bool(k % 3 != 2), dt_init=1e-4, save_every=20, field_units="mT", current_units="uA", output="file",
-                 terminal_psi="none" if nt else 0.0, adaptive_window=int(rng.choice([2, 5, 10])))
+        o = dict(adaptive=bool(k % 3 != 2), dt_init=1e-4, save_every=int([20, 1, 7, 3, 20, 11, 64][k % 7]), field_units="mT", current_units="uA", output="file",
+                 terminal_psi="none" if nt else 0.0, adaptive_window=int(rng.choice([2, 5, 10])))  # (save intervals below, at and above the window)
         if scr:
             o.update(include_screening=True, screening_tolerance=1e-3, max_iterations_per_step=200)
         cases.append({"device": dev, "options": o, "drive": {}, "regime": regime, "frac": float(rng.uniform(0.2, 0.9)), "steps": 150 if not scr else 40,
@@ -60,7 +60,7 @@ def gen_cases(tier, seed):
     nh = 8 if tier == "quick" else 32
     for k in range(nh):
         # histories: the undriven run is not the first thing that happens to the Device / SolverOptions object
-        hist = ["after_pinned_run", "options_reused", "seeded_fixed_step", "options_reloaded"][k % 4]
+        hist = ["after_pinned_run", "options_reused", "seeded_fixed_step", "options_reloaded", "occupied_output", "options_reused", "seeded_fixed_step", "options_reloaded"][k % 8]
         nt = [2, 3][k % 2] if hist in ("after_pinned_run", "options_reloaded") else int([0, 2][(k // 2) % 2])
         dev = zoo.gen_device(rng, n_terminals=nt, n_holes=0, probes=0, size="small", film_kind="box" if nt else None, smooth=int(rng.choice([0, 10])),
                              gamma=float([10.0, 1.0, 0.0][k % 3]))
@@ -135,6 +135,22 @@ def run_case(spec):
         lo = loaded.options
         lo.solve_time = o["solve_time"]
         run_kwargs["options_obj"] = lo
+    elif hist == "occupied_output":
+        # the output file name is already taken by an earlier, DRIVEN simulation: what solve() hands back is this run
+        import copy
+        import tempfile
+
+        from . import _simcases as S2
+
+        wd = tempfile.mkdtemp(prefix="vt_c17o_")
+        pre = copy.deepcopy(sp)
+        pre["options"].update(adaptive=True, solve_time=15 * o["dt_max"], dt_init=min(1e-3, o["dt_max"] / 4), terminal_psi=0.0)
+        rng = np.random.default_rng(spec.get("seed", 0))
+        pre["drive"] = {"A": S2.field_spec(rng, spec["device"], pre["options"], "uniform", b=0.4)}
+        r0 = sim.run_sim(pre, [], device=dev, workdir=wd, keep_dir=True)
+        if r0.refused or r0.exception is not None:
+            return {"violations": [], "counters": {"refused_mesh": 1}, "classes": ["refused"], "nontrivial": False}
+        run_kwargs["workdir"] = wd
     elif hist == "options_reused":
         # ONE SolverOptions object: first a fixed-step run, then the user switches adaptivity on and runs again
         import dataclasses
@@ -158,6 +174,8 @@ def run_case(spec):
         o["adaptive"] = True
         o["dt_init"] = oo["dt_init"]
         run_kwargs["options_obj"] = opts
+    # bounded by operations: with the step growing to dt_max as specified the run needs about 0.7 * steps updates
+    sp["max_updates"] = 4 * spec["steps"] + 300
     rr = sim.run_sim(sp, [mon, simmon.Sanitizer()], device=dev, **run_kwargs)
     if rr.refused:
         return {"violations": [], "counters": {"refused_mesh": 1}, "classes": ["refused"], "nontrivial": False}
@@ -166,6 +184,15 @@ def run_case(spec):
     if hist:
         C["history_runs"] = 1
     exc = rr.exception
+    if isinstance(exc, sim.StepCapReached):
+        if o["adaptive"] and spec["regime"] == "stable":
+            V.append({"kind": "dt_did_not_reach_max", "mechanism": "dt_did_not_reach_max",
+                      "detail": {"last_dt": mon.dts[-1] if mon.dts else None, "dt_max": o["dt_max"], "steps": len(mon.dts), "note": "run stopped by the harness: it needed more than 4x the steps of a run whose step grows to dt_max"}})
+            exc = None
+            rr.solution = None
+        else:
+            rr.cleanup()
+            return {"status": "harness_error", "error": "step cap reached in a run that is not adaptive/stable: " + str(exc)}
     if exc is not None and spec["regime"] == "stable" and isinstance(exc, RuntimeError) and "converge" in str(exc):
         # nothing drives this run and the step is inside the stability bound: giving up is not stationarity
         V.append({"kind": "undriven_run_fails", "mechanism": "undriven_run_fails_to_converge", "detail": {"error": str(exc)[:200], "steps_done": C.get("steps_checked", 0)}})
@@ -181,6 +208,11 @@ def run_case(spec):
             for st_ in range(int(sol_.data_range[0]), int(sol_.data_range[1]) + 1):
                 sol_.solve_step = st_
                 C["derived_quantity_checks"] += 1
+                td_ = sol_.tdgl_data
+                dev_ = float(np.max(np.abs(np.asarray(td_.psi) - 1.0)))
+                if dev_ > 1e-12 or np.any(np.asarray(td_.mu) != 0):
+                    V.append({"kind": "reported_state_not_uniform", "mechanism": "reported_state_not_uniform", "detail": {"step": st_, "max_abs_psi_minus_1": dev_, "max_abs_mu": float(np.max(np.abs(td_.mu)))}})
+                    raise StopIteration
                 for nm_ in ("supercurrent_density", "normal_current_density", "current_density"):
                     arr_ = np.asarray(getattr(sol_, nm_).magnitude)
                     if not np.all(np.isfinite(arr_)) or np.any(arr_ != 0):
@@ -189,6 +221,12 @@ def run_case(spec):
                         raise StopIteration
         except StopIteration:
             pass
+        # ... and the time steps it reports are the time steps that were taken (they grow to dt_max and stay)
+        C["reported_dt_checks"] = 1
+        rec_ = [float(x) for x in np.asarray(sol_.dynamics.dt)] if sol_.dynamics is not None else None
+        if rec_ != [float(d) for d in mon.dts]:
+            V.append({"kind": "reported_time_steps_wrong", "mechanism": "reported_time_steps_wrong",
+                      "detail": {"reported": None if rec_ is None else len(rec_), "taken": len(mon.dts), "reported_tail": None if rec_ is None else rec_[-3:], "taken_tail": mon.dts[-3:]}})
     if spec["regime"] == "stable":
         C["stable_regime_runs"] = 1
         C["stable_regime_steps"] = mon.C.get("steps_checked", 0)
